@@ -35,11 +35,11 @@ func (s Status) String() string {
 
 // Obligation is one instance of one rule on one construct.
 type Obligation struct {
-	Rule       string `json:"rule"`             // e.g. C13-R3.M=N+8
-	Key        string `json:"key"`              // stable: rule|construct (no line numbers)
-	Pos        string `json:"pos,omitempty"`    // file:line (diagnostic only)
-	Want       string `json:"want,omitempty"`   // what the rule requires
-	Got        string `json:"got,omitempty"`    // what the code shows / discharging fact
+	Rule       string `json:"rule"`           // e.g. C13-R3.M=N+8
+	Key        string `json:"key"`            // stable: rule|construct (no line numbers)
+	Pos        string `json:"pos,omitempty"`  // file:line (diagnostic only)
+	Want       string `json:"want,omitempty"` // what the rule requires
+	Got        string `json:"got,omitempty"`  // what the code shows / discharging fact
 	Status     Status `json:"-"`
 	StatusText string `json:"status"`
 	Nontrivial bool   `json:"nontrivial,omitempty"` // operand depends on a symbol / non-default cell
